@@ -44,10 +44,11 @@ pub fn run(obligation: &str) -> i32 {
     std::panic::set_hook(Box::new(|_| {}));   // panics of the code under contract are reported as outcomes, not printed
     if ["C06.generate_integer", "C06.integer_template", "C04.generate_typealias", "C04.generate_octet_string", "C04.generate_bit_string", "C04.typealias_template", "C04.octet_string_template", "C04.fixed_octet_string_template", "C04.bit_string_template", "C04.fixed_bit_string_template"].iter().any(|p| obligation.starts_with(p)) { gen_assignments(&mut rep); return rep.finish("GEN_assignments"); }
     if obligation.starts_with("C02.type_table") || obligation.starts_with("C02.string_type") || obligation.starts_with("C02.qualified_type") { gen_type_table(&mut rep); return rep.finish("GEN_type_table"); }
+    if obligation.starts_with("C02.format_sequence_or_set_members") || obligation.starts_with("C02.format_choice_options") { gen_member_lists(&mut rep); return rep.finish("GEN_members"); }
     if ["C02.format_member_or_option", "C02.format_sequence_member", "C02.format_choice_option", "C02.boxed_type", "C02.format_default_methods"].iter().any(|p| obligation.starts_with(p)) { gen_members(&mut rep); gen_default_methods(&mut rep); return rep.finish("GEN_members"); }
     if obligation.starts_with("C14.generate_enumerated") || obligation.starts_with("C14.enumerated_template") { gen_blocks(&mut rep); return rep.finish("GEN_blocks"); }
     if obligation.starts_with("C14.format_enum_members") || obligation.starts_with("C05.format_enum_members") { gen_enum_members(&mut rep); return rep.finish("GEN_enum_members"); }
-    if ["C05.generate_", "C03.generate_", "C05.member_extension", "C05.option_extension", "C02.generate_sequence_or_set_set_annotation", "C02.sequence_or_set_of_template", "C03.common_annotations", "C04.generate_collection_annotations", "C02.generate_collection_member_type"].iter().any(|p| obligation.starts_with(p)) { gen_blocks(&mut rep); gen_collections(&mut rep); return rep.finish("GEN_blocks"); }
+    if ["C05.generate_", "C03.generate_", "C05.member_extension", "C05.option_extension", "C02.generate_sequence_or_set_set_annotation", "C02.generate_sequence_or_set_assembly", "C02.generate_choice_assembly", "C02.sequence_or_set_template", "C02.choice_template", "C02.sequence_or_set_of_template", "C03.common_annotations", "C04.generate_collection_annotations", "C02.generate_collection_member_type"].iter().any(|p| obligation.starts_with(p)) { gen_blocks(&mut rep); gen_collections(&mut rep); return rep.finish("GEN_blocks"); }
     if ["C03.format_tag", "C06.width_to_tokens", "C04.format_range_annotations", "lemma.GEN_emission"].iter().any(|p| obligation.starts_with(p)) { gen_emission(&mut rep); return rep.finish("GEN_emission"); }
     if obligation.starts_with("C03.") { c03_apply_tagenv(&mut rep); return rep.finish("C03_apply_tagenv"); }
     if ["C02.link_components_of", "C05.link_components_of", "C02.has_components_of", "C05.lemma.", "C02.lemma."].iter().any(|p| obligation.starts_with(p)) { c02_components_of(&mut rep); return rep.finish("C02_components_of"); }
@@ -302,6 +303,69 @@ fn gen_members(rep: &mut Rep) {
     } } } } }
 }
 
+/// format_sequence_or_set_members / format_choice_options on the real crate: lists of 0..=4 components / alternatives (BOOLEAN, an anonymous
+/// SEQUENCE, an anonymous CHOICE, an extension group), every first-addition index (none, 0..=n); expected: the fields / variants are those
+/// format_sequence_member / format_choice_option produce for each item with the extension annotation of its own index, in order, each
+/// followed by `,`; one constructor argument per component; one hoisted item per anonymous type, in order, named for its component.
+fn gen_member_lists(rep: &mut Rep) {
+    use rasn_compiler::verif_hooks::{hook_format_choice_option, hook_format_choice_options, hook_format_sequence_member, hook_format_sequence_or_set_members, hook_inner_name, hook_snake};
+    let nows = |s: &str| s.chars().filter(|c| !c.is_whitespace()).collect::<String>();
+    let boolean = || ASN1Type::Boolean(Boolean { constraints: vec![] });
+    let inner_seq = || ASN1Type::Sequence(SequenceOrSet { components_of: vec![], extensible: None, constraints: vec![], members: vec![SequenceOrSetMember { name: "x".into(), tag: None, ty: boolean(), optionality: Optionality::Required, is_recursive: false, constraints: vec![] }] });
+    let inner_choice = || ASN1Type::Choice(Choice { extensible: None, constraints: vec![], options: vec![ChoiceOption { name: "y".into(), tag: None, ty: boolean(), constraints: vec![], is_recursive: false }] });
+    // kinds: 0 BOOLEAN, 1 anonymous SEQUENCE, 2 anonymous CHOICE, 3 extension group (anonymous SEQUENCE under the internal name), 4 tagged BOOLEAN OPTIONAL
+    let kinds = 5usize;
+    for n in 0..=4usize {
+        let mut combo = vec![0usize; n];
+        loop {
+            for marker in std::iter::once(None).chain((0..=n).map(Some)) {
+                let name_of = |i: usize, k: usize| if k == 3 { format!("ext_group_f{i}") } else { format!("f{i}") };
+                let ty_of = |k: usize| match k { 1 | 3 => inner_seq(), 2 => inner_choice(), _ => boolean() };
+                let tag_of = |k: usize| if k == 4 { Some(AsnTag { environment: TaggingEnvironment::Implicit, tag_class: TagClass::ContextSpecific, id: 3 }) } else { None };
+                let members: Vec<SequenceOrSetMember> = combo.iter().enumerate().map(|(i, k)| SequenceOrSetMember { name: name_of(i, *k), tag: tag_of(*k), ty: ty_of(*k), optionality: if *k == 4 { Optionality::Optional } else { Optionality::Required }, is_recursive: false, constraints: vec![] }).collect();
+                let ext_of = |i: usize, k: usize| match marker { Some(x) if i >= x => if k == 3 { "extension_addition_group" } else { "extension_addition" }, _ => "" };
+                let s = SequenceOrSet { components_of: vec![], extensible: marker, constraints: vec![], members: members.clone() };
+                let got = hook_format_sequence_or_set_members(&s, "Parent");
+                let d = || format!("components kinds={combo:?} (0 BOOLEAN, 1 SEQUENCE{{..}}, 2 CHOICE{{..}}, 3 [[group]], 4 [3] BOOLEAN OPTIONAL) first_addition_index={marker:?} -> {}", match &got { Ok((b, nt, h)) => format!("{} | args={} | hoisted={}", nows(b), nt.len(), h.len()), Err(e) => format!("ERR {e}") });
+                rep.check("C02.format_sequence_or_set_members.fails_only_when_formatting_or_hoisting_a_component_fails", got.is_ok(), d);
+                if let Ok((body, nts, hoisted)) = &got {
+                    let mut want = String::new();
+                    let mut ok_each = true;
+                    for (i, m) in members.iter().enumerate() { match hook_format_sequence_member(m, "Parent", ext_of(i, combo[i])) { Ok((t, _)) => { want.push_str(&nows(&t)); want.push(','); } Err(_) => ok_each = false } }
+                    rep.check("C02.format_sequence_or_set_members.one_field_per_component_in_order_extension_addition_exactly_from_the_first_addition_index_on", ok_each && nows(body) == want, d);
+                    rep.check("C02.format_sequence_or_set_members.fields_so_far_in_component_order", ok_each && nows(body) == want, d);
+                    let args_ok = nts.len() == n && members.iter().zip(nts.iter()).all(|(m, nt)| nt.contains(&format!("sym: {}", hook_snake(&m.name).trim_start_matches("r#"))) || nt.contains(&hook_snake(&m.name)));
+                    rep.check("C02.format_sequence_or_set_members.one_constructor_argument_per_component_in_order", args_ok, d);
+                    let want_h: Vec<String> = members.iter().zip(combo.iter()).filter(|(_, k)| matches!(**k, 1 | 2 | 3)).map(|(m, _)| hook_inner_name(&m.name, "Parent")).collect();
+                    let h_ok = hoisted.len() == want_h.len() && hoisted.iter().zip(want_h.iter()).all(|(h, w)| { let t = nows(h); t.contains(&format!("pubstruct{w}{{")) || t.contains(&format!("pubenum{w}{{")) });
+                    rep.check("C02.format_sequence_or_set_members.one_hoisted_item_per_anonymous_component_type_in_order", h_ok, d);
+                    rep.check("C02.format_sequence_or_set_members.hoisted_items_so_far", h_ok, d);
+                }
+                // the same list as CHOICE alternatives (kind 4: tagged alternative)
+                let options: Vec<ChoiceOption> = combo.iter().enumerate().map(|(i, k)| ChoiceOption { name: name_of(i, *k), tag: tag_of(*k), ty: ty_of(*k), constraints: vec![], is_recursive: false }).collect();
+                let c = Choice { extensible: marker, constraints: vec![], options: options.clone() };
+                let got = hook_format_choice_options(&c, "Parent");
+                let d = || format!("alternatives kinds={combo:?} (0 BOOLEAN, 1 SEQUENCE{{..}}, 2 CHOICE{{..}}, 3 [[group]], 4 [3] BOOLEAN) first_addition_index={marker:?} -> {}", match &got { Ok((b, h)) => format!("{} | hoisted={}", nows(b), h.len()), Err(e) => format!("ERR {e}") });
+                rep.check("C02.format_choice_options.fails_only_when_formatting_or_hoisting_an_alternative_fails", got.is_ok(), d);
+                if let Ok((body, hoisted)) = &got {
+                    let mut want = String::new();
+                    let mut ok_each = true;
+                    for (i, o) in options.iter().enumerate() { match hook_format_choice_option(o, "Parent", ext_of(i, combo[i])) { Ok(t) => want.push_str(&nows(&t)), Err(_) => ok_each = false } }
+                    rep.check("C02.format_choice_options.one_variant_per_alternative_in_order_extension_addition_exactly_from_the_first_addition_index_on", ok_each && nows(body) == want, d);
+                    rep.check("C02.format_choice_options.variants_so_far_in_alternative_order", ok_each && nows(body) == want, d);
+                    let want_h: Vec<String> = options.iter().zip(combo.iter()).filter(|(_, k)| matches!(**k, 1 | 2 | 3)).map(|(o, _)| hook_inner_name(&o.name, "Parent")).collect();
+                    let h_ok = hoisted.len() == want_h.len() && hoisted.iter().zip(want_h.iter()).all(|(h, w)| { let t = nows(h); t.contains(&format!("pubstruct{w}{{")) || t.contains(&format!("pubenum{w}{{")) });
+                    rep.check("C02.format_choice_options.one_hoisted_item_per_anonymous_alternative_type_in_order", h_ok, d);
+                    rep.check("C02.format_choice_options.hoisted_items_so_far", h_ok, d);
+                }
+            }
+            // odometer
+            let mut k = 0; while k < n { combo[k] += 1; if combo[k] < kinds { break; } combo[k] = 0; k += 1; }
+            if k == n { break; }
+        }
+    }
+}
+
 /// format_default_methods on the real crate: lists of 0..=4 components, each required / OPTIONAL / DEFAULT, of type BOOLEAN, INTEGER,
 /// SEQUENCE OF BOOLEAN or SET OF BOOLEAN; expected: one `fn <parent>_<name>_default() -> <type> { <value> }` per DEFAULT component, in order
 fn gen_default_methods(rep: &mut Rep) {
@@ -474,6 +538,29 @@ fn gen_blocks(rep: &mut Rep) {
                         let (yes, no) = if kind == 2 { ("C03.generate_choice_automatic_tags.automatic_module_and_no_tagged_alternative_gives_automatic_tags", "C03.generate_choice_automatic_tags.otherwise_no_automatic_tags") }
                                         else { ("C03.generate_sequence_or_set_automatic_tags.automatic_module_and_no_tagged_component_gives_automatic_tags", "C03.generate_sequence_or_set_automatic_tags.otherwise_no_automatic_tags") };
                         rep.check(if want_auto { yes } else { no }, h.contains("automatic_tags") == want_auto, d);
+                    }
+                    if kind <= 2 {
+                        // assembly: the annotation list in order (set, own tag — explicit for a CHOICE —, automatic_tags) and the body the member-list function delivers
+                        let t = nows(text);
+                        let tag_item = top_tag.as_ref().map(|tg| { let w = if tg.tag_class == TagClass::Application { "application" } else { "private" }; if tg.environment == TaggingEnvironment::Explicit || kind == 2 { format!("tag(explicit({w},{}))", tg.id) } else { format!("tag({w},{})", tg.id) } });
+                        let mut items: Vec<String> = vec![];
+                        if kind == 1 { items.push("set".into()); }
+                        if kind == 2 { items.push("choice".into()); }
+                        if let Some(x) = &tag_item { items.push(x.clone()); }
+                        if env == TaggingEnvironment::Automatic && tagged_mask == 0 { items.push("automatic_tags".into()); }
+                        let ann_ok = if items.is_empty() { !h.contains("#[rasn(") } else { h.contains(&format!("#[rasn({})]", items.join(","))) };
+                        let body_ok = if kind == 2 {
+                            let ASN1Type::Choice(c) = &ty else { unreachable!() };
+                            rasn_compiler::verif_hooks::hook_format_choice_options(c, "T").map_or(false, |(b, _)| t.contains(&format!("pubenumT{{{}}}", nows(&b))))
+                        } else {
+                            let (ASN1Type::Sequence(sq) | ASN1Type::Set(sq)) = &ty else { unreachable!() };
+                            rasn_compiler::verif_hooks::hook_format_sequence_or_set_members(sq, "T").map_or(false, |(b, _, _)| t.contains(&format!("pubstructT{{{}}}", nows(&b))))
+                        };
+                        let (c1, c2, c3) = if kind == 2 { ("C02.generate_choice_assembly.enum_of_the_formatted_alternatives_of_this_type_with_its_explicit_tag_automatic_tags_and_extensibility_mark_in_place", "C02.generate_choice_assembly.fails_only_when_a_callee_fails", "C02.choice_template.enum_of_the_given_variants_with_hoisted_items_annotations_and_extensibility_mark") }
+                            else { ("C02.generate_sequence_or_set_assembly.struct_of_the_formatted_members_of_this_type_with_set_own_tag_automatic_tags_and_extensibility_mark_in_place", "C02.generate_sequence_or_set_assembly.fails_only_when_a_callee_fails", "C02.sequence_or_set_template.struct_of_the_given_members_with_hoisted_items_annotations_and_extensibility_mark") };
+                        rep.check(c1, ann_ok && body_ok && h.contains("#[non_exhaustive]") == want_ne, d);
+                        rep.check(c2, true, d);
+                        rep.check(c3, body_ok, d);
                     }
                     if kind == 2 {
                         match &top_tag {
